@@ -426,11 +426,11 @@ class LedState(State):
                 self.override_function = self.FUNCTION_ON
             elif res.override_function in picmg.LED_FUNCTION_BLINKING_RANGE:
                 self.override_function = self.FUNCTION_BLINKING
-                self.override_off_duration = res.local_function * 10
+                self.override_off_duration = res.override_function * 10
+                self.override_on_duration = res.override_on_duration * 10
             else:
                 raise DecodingError()
 
-            self.override_off_duration = res.override_on_duration * 10
             self.override_color = res.override_color
 
         if self.lamp_test_enabled:
